@@ -162,7 +162,45 @@ def run(run: common.Run):
                 run.fail(sub, f'{", ".join(bad)} differ from the base encoding {picks[0]} although the logical images are the '
                          f'same (source encoded {enc_s} hidden {hid_s}; reference {enc_r} hidden {hid_r})',
                          signature=dict(kind='encoding-dependence', what=bad[0]))
+    rewrite_leg(run, tmp)
     read_logic(run, tmp)
+
+
+def rewrite_leg(run, tmp):
+    """
+    The same logical pair written to the SAME paths first with a nodata value, then with an internal mask / alpha band over
+    arbitrary hidden values (and back), processed in one process each time: the results must not remember what the path held
+    before (nothing about a file's encoding may be cached across opens).
+    """
+    for k, dtype in enumerate(['float32', 'uint8']):
+        rng = run.rng(f'rewrite{k}')
+        src, ref = rasters.pair_geometry(rng, 'dyadic', 'auto', max_src=22, margin=(1, 2))
+        nb = 1
+        s = np.array([[[rng.randint(20, 200) for _ in range(src.w)] for _ in range(src.h)]], float)
+        r = np.array([[[rng.randint(30, 150) for _ in range(ref.w)] for _ in range(ref.h)]], float)
+        sv, rv = holes(rng, src.h, src.w), holes(rng, ref.h, ref.w)
+        seq = ([('nan', None), ('mask', 'random'), (-9999.0, None), ('mask', 3.4e38), ('nan', None)] if dtype == 'float32' else
+               [(0, None), ('mask', 'random'), ('alpha', 255), (0, None), ('mask', 255)])
+        sp, rp = tmp / 'c08_rw_s.tif', tmp / 'c08_rw_r.tif'
+        base = None
+        for step, (enc, hid) in enumerate(seq):
+            write_encoded(sp, src, s, sv, dtype, enc, hid, rng)
+            write_encoded(rp, ref, r, rv, dtype, enc, hid, rng)
+            case = dict(i=4_000_000 + 10 * k + step, op='same path re-written', dtype=dtype, sequence=[str(e) for e in seq[:step + 1]])
+            try:
+                res = fusion.run_fuse(sp, rp, tmp / 'c08_rw_o.tif', model='gain-blk-offset', kernel_shape=(3, 3), param=True, threads=1)
+            except Exception as ex:
+                run.fail(case, f'raised {type(ex).__name__}: {ex}', signature=dict(kind='raises'))
+                break
+            run.evaluations += 1
+            run.hist['re-written path runs'] += 1
+            cur = (res.corr, res.corr_mask, res.param, res.param_masks)
+            if base is None:
+                base = cur
+            elif not all(fusion.bytes_equal(a, b) for a, b in zip(cur, base)):
+                run.fail(case, f'results changed after the same paths were re-written with encoding {enc} (hidden {hid}): the sequence '
+                         f'of encodings a path has held must not matter', signature=dict(kind='encoding-dependence', what='rewrite'))
+                break
 
 
 def read_logic(run, tmp):
